@@ -35,7 +35,9 @@ json.dump(hooks,open('gen/hook_commits.json','w'))
 PY
 python3 tools/repin.py >/dev/null
 python3 gen/manifest.py
-for p in $props; do ./check $p --tier quick || true; done
+bad=""
+for p in $props; do ./check $p --tier quick || bad="$bad $p"; done
+if [ -n "$bad" ]; then echo "finish.sh: checks FAILED after merging $n:$bad — not committing as claimed; fix first"; exit 1; fi
 git add -A; git commit -qm "$n merged: $props claimed; findings folded; evidence from /repo"
 git -C /repo worktree remove --force /work/$n/repo; git worktree remove --force /work/$n/verif; rm -rf /work/$n
 git -C /repo branch -D wp-$n -q; git branch -D wp-$n -q
